@@ -43,6 +43,24 @@ def all_vectors():
     return out
 
 
+def random_vectors(rng, n):
+    """random points of the FULL product of witness classes (options varied together)"""
+    out = []
+    for _ in range(n):
+        c = rng.choice(COMMANDS[1:])
+        good = {"new": ["len-default", "len-12", "len-24"], "from-master-xprv": ["master-xprv", "master-tprv", "child-xprv"],
+                "from-mnemonic": ["12-words", "15-words", "18-words", "21-words", "24-words", "12-nonlist-words"],
+                "from-bip39-seed": ["128-hex"], "from-entropy-hex": ["32-hex", "40-hex", "48-hex", "56-hex", "64-hex"]}[c]
+        a = rng.choice(good if rng.random() < 0.8 else ARGS[c])
+        s, e = rng.choice(BOUNDS), rng.choice(BOUNDS)
+        if rng.random() < 0.6:
+            s, e = rng.choice([("0", "1"), ("0", "3"), ("1", "3"), ("3", "3"), ("3", "1"), ("2^31-1", "2^31"), ("0", "0")])
+        out.append({"cmd": c, "arg": a, "file": rng.choice(FILES if rng.random() < 0.5 else ["none", "absent"]),
+                    "testnet": rng.random() < 0.5, "paranoia": rng.random() < 0.5,
+                    "account": rng.choice(ACCOUNTS if rng.random() < 0.4 else ["default", "0", "5", "2^31-2"]), "start": s, "end": e})
+    return out
+
+
 def is_big(v):
     """vectors whose accepted interval would be enormous (never accepted by a conformant CLI, but a run
     that accepts them would take forever): bounded by a row cap in the driver"""
@@ -90,7 +108,7 @@ def run(ctx):
     import multiprocessing as mp
     ctx.mc("Cli", core.cfg_of("Cli.cfg"), coverage=True, label="argument-vector classes x file-system states: parse/build/generate/filter/emit")
     ctx.require_actions("Cli", ["ParseArgs", "NoCommand", "BuildAndGenerate", "Filter", "Emit"])
-    vecs = [v for v in pick(ctx, all_vectors()) if not expensive(v)]
+    vecs = [v for v in pick(ctx, all_vectors()) + random_vectors(ctx.rng, 150 if ctx.quick else 3000) if not expensive(v)]
     ctx.notes["vectors_total"] = len(all_vectors())
     ctx.notes["vectors_skipped_as_unbounded"] = sum(1 for v in all_vectors() if expensive(v))
     jobs = []
